@@ -217,6 +217,6 @@ def mcRespSample (w : Worker) (c : Content) (sample : Row) (toScan : Option (Lis
   let c0 ← applyY0 c vars
   let c1 ← applyRow c0 sample
   let r ← responseSeq w none normalized d c1 toScan
-  pure (c0, r.2)
+  pure (c, r.2)   -- after the repair of F-C18-2 the override is applied to a copy: the caller's model is returned as it was
 
 end Mxl.C18
